@@ -1,9 +1,303 @@
-"""Engine K (placeholder until built)."""
+"""Engine K: Kani harness modules compiled against the real crates in a scratch copy of the repo.
+
+Harness files live in /verif/kani/<crate>/<name>.rs.  Each starts with
+    //! @target <path of the /repo source file the module is appended to>
+and every harness carries a metadata comment directly above its #[kani::proof]:
+    // @verif prop=C31 class=complete|bounded bound="..." targets="A::f,B::g" tier=quick|thorough timeout=120
+The module is appended to the target file as
+    #[cfg(kani)] #[path = "..."] mod __verif_kani_<n>;
+so it is a child module (sees private items) and nothing in /repo is edited.
+
+class=complete : loop-free (or loops bounded by operand width with unwinding assertions on) over the
+                 full symbolic domain of the inputs -- counted as proved.
+class=bounded  : fixed input length / unwind / step cap -- a stand-in, never counted as proved.
+"""
+import os
+import re
+import resource
+import shlex
+import shutil
+import subprocess
+import tempfile
+import time
+
+VERIF = os.path.dirname(os.path.dirname(os.path.abspath(__file__)))
+KANI_DIR = os.path.join(VERIF, "kani")
+MEM_CAP_GB = int(os.environ.get("VERIF_KANI_MEM_GB", "20"))
 
 
-def run_units(kunits, repo, tier, prop):
-    return {"undecided": ["kani engine not built yet"], "cmds": [], "harnesses": [], "assumptions": [], "trusted": []}
+def parse_harness_file(path):
+    with open(path) as f:
+        text = f.read()
+    m = re.search(r"^//! @target (\S+)", text, re.M)
+    if not m:
+        raise ValueError("%s: no //! @target line" % path)
+    target = m.group(1)
+    crate = re.search(r"^//! @crate (\S+)", text, re.M)
+    harnesses = []
+    for hm in re.finditer(r"// @verif ([^\n]*)\n((?:\s*(?://[^\n]*|#\[[^\n]*\])\n)*)\s*(?:pub\s+)?fn\s+(\w+)", text):
+        meta = dict((k, v.strip('"')) for k, v in re.findall(r'(\w+)=("[^"]*"|\S+)', hm.group(1)))
+        attrs = hm.group(2)
+        if "kani::proof" not in attrs:
+            continue
+        # doc comment above the @verif line
+        pre = text[:hm.start()].rstrip().split("\n")
+        doc = []
+        while pre and pre[-1].strip().startswith("///"):
+            doc.insert(0, pre.pop().strip()[3:].strip())
+        harnesses.append({"name": hm.group(3), "meta": meta, "doc": " ".join(doc)[:400], "file": path,
+                          "stubs": re.findall(r"kani::stub\(([^)]*)\)", attrs),
+                          "unwind": (re.findall(r"kani::unwind\((\d+)\)", attrs) or [None])[0]})
+    return {"path": path, "target": target, "crate": crate.group(1) if crate else target.split("/")[1], "harnesses": harnesses, "text": text}
+
+
+def _limits():
+    cap = MEM_CAP_GB * (1 << 30)
+    try:
+        resource.setrlimit(resource.RLIMIT_AS, (cap, cap))
+    except (ValueError, OSError):
+        pass
+
+
+def make_scratch(repo, files):
+    """rsync the working tree (no target/, no .git) and append the harness modules."""
+    scratch = tempfile.mkdtemp(prefix="verif_kani_")
+    subprocess.run(["rsync", "-a", "--exclude", "/target", "--exclude", ".git", repo.rstrip("/") + "/", scratch + "/"], check=True)
+    lock = os.path.join(repo, "Cargo.lock")
+    if os.path.exists(lock):
+        shutil.copy(lock, os.path.join(scratch, "Cargo.lock"))
+    for n, hf in enumerate(files):
+        tgt = os.path.join(scratch, hf["target"])
+        if not os.path.exists(tgt):
+            raise FileNotFoundError(hf["target"])
+        with open(tgt, "a") as f:
+            f.write('\n#[cfg(kani)] #[path = "%s"] mod __verif_kani_%d;\n' % (hf["path"], n))
+    return scratch
+
+
+def target_dir():
+    d = os.environ.get("VERIF_KANI_TARGET")
+    if d:
+        os.makedirs(d, exist_ok=True)
+        return d, False
+    return tempfile.mkdtemp(prefix="verif_kani_target_"), True
+
+
+def run_cargo_kani(scratch, crate, names, tdir, timeout_each, extra=None, jobs=None):
+    cmd = ["cargo", "kani", "-p", crate, "-Z", "unstable-options", "-Z", "stubbing", "-Z", "function-contracts",
+           "--harness-timeout", "%ds" % timeout_each, "--output-format", "terse", "--exact",
+           "-j", str(jobs or min(8, max(1, len(names))))]
+    for n in names:
+        cmd += ["--harness", n]
+    if extra:
+        cmd += extra
+    env = dict(os.environ, CARGO_NET_OFFLINE="true", CARGO_TARGET_DIR=tdir)
+    t0 = time.time()
+    try:
+        p = subprocess.run(cmd, cwd=scratch, env=env, capture_output=True, text=True,
+                           timeout=600 + timeout_each * max(1, len(names)), preexec_fn=_limits)
+        out = p.stdout + "\n" + p.stderr
+        rc = p.returncode
+    except subprocess.TimeoutExpired as e:
+        out = (e.stdout or b"").decode("utf-8", "replace") if isinstance(e.stdout, bytes) else (e.stdout or "")
+        out += "\n[verif] cargo kani timed out"
+        rc = -9
+    return " ".join(shlex.quote(c) for c in cmd), out, rc, time.time() - t0
+
+
+def parse_output(out):
+    """Split cargo-kani terse output into per-harness results (handles the `-j` "Thread N:" format)."""
+    bodies = {}
+    cur_by_thread = {}
+    cur = None
+    for line in out.split("\n"):
+        m = re.match(r"^(?:Thread (\d+): )?Checking harness (\S+?)\.\.\.\s*$", line)
+        if m:
+            t = m.group(1)
+            name = m.group(2)
+            bodies.setdefault(name, [])
+            if t is None:
+                cur = name
+            else:
+                cur_by_thread[t] = name
+            continue
+        m = re.match(r"^Thread (\d+):\s*(.*)$", line)
+        if m:
+            cur = cur_by_thread.get(m.group(1))
+            line = m.group(2)
+        if re.match(r"^(Manual Harness Summary|Complete - |Verification failed for)", line):
+            cur = None
+        if cur is not None:
+            bodies[cur].append(line)
+    res = {}
+    for full, lines in bodies.items():
+        name = full.split("::")[-1]
+        body = "\n".join(lines)
+        r = {"full_name": full, "body": body}
+        m = re.search(r"VERIFICATION:- (SUCCESSFUL|FAILED)", body)
+        r["verdict"] = m.group(1) if m else None
+        m = re.search(r"Verification Time: ([0-9.]+)s", body)
+        r["time_s"] = float(m.group(1)) if m else None
+        m = re.search(r"\*\* (\d+) of (\d+) failed", body)
+        if m:
+            r["n_failed"], r["n_checks"] = int(m.group(1)), int(m.group(2))
+        m = re.search(r"\*\* (\d+) of (\d+) cover properties satisfied", body)
+        if m:
+            r["covers_sat"], r["covers"] = int(m.group(1)), int(m.group(2))
+        r["failed_checks"] = [" ".join(x.split()) for x in re.findall(r"Failed Checks: ([^\n]*)", body)]
+        r["timeout"] = bool(re.search(r"timed out|Timeout|TIMEOUT", body))
+        r["oom"] = bool(re.search(r"out of memory|std::bad_alloc|Killed|memory exhausted", body, re.I))
+        res[name] = r
+    return res
+
+
+def run_units(files_rel, repo, tier, prop):
+    """files_rel: list of paths relative to /verif/kani.  Runs the harnesses tagged prop=<prop>."""
+    result = {"undecided": [], "cmds": [], "harnesses": [], "assumptions": [], "trusted": []}
+    files = []
+    try:
+        for rel in files_rel:
+            files.append(parse_harness_file(os.path.join(KANI_DIR, rel)))
+    except (OSError, ValueError) as e:
+        result["undecided"].append("kani harness file: %s" % e)
+        return result
+    by_crate = {}
+    for hf in files:
+        sel = [h for h in hf["harnesses"] if prop in h["meta"].get("prop", "").split(",")
+               and (tier == "thorough" or h["meta"].get("tier", "quick") == "quick")]
+        if sel:
+            by_crate.setdefault(hf["crate"], []).append((hf, sel))
+    if not by_crate:
+        result["undecided"].append("no kani harness selected for %s" % prop)
+        return result
+    tdir, tmp_target = target_dir()
+    scratch = None
+    try:
+        for crate, lst in by_crate.items():
+            try:
+                scratch = make_scratch(repo, [hf for hf, _ in lst])
+            except (FileNotFoundError, subprocess.CalledProcessError) as e:
+                result["undecided"].append("kani scratch copy: lost anchor %s" % e)
+                continue
+            hs = []
+            for n, (hf, sel) in enumerate(lst):
+                rel = hf["target"].split("/src/", 1)[1][:-3]
+                parts = [x for x in rel.split("/") if x not in ("mod", "lib", "main")]
+                for h in sel:
+                    h["fq"] = "::".join(parts + ["__verif_kani_%d" % n, h["name"]])
+                    hs.append(h)
+            tmax = max(int(h["meta"].get("timeout", "180")) for h in hs)
+            cmd, out, rc, wall = run_cargo_kani(scratch, crate, [h["fq"] for h in hs], tdir, tmax)
+            result["cmds"].append(cmd)
+            parsed = parse_output(out)
+            if not parsed:
+                # compilation failure or tool crash: undecided
+                tail = "\n".join(out.strip().split("\n")[-25:])
+                result["undecided"].append("cargo kani produced no harness result for crate %s (compile error in harness module after a source change, or tool failure):\n%s" % (crate, tail))
+                shutil.rmtree(scratch, ignore_errors=True)
+                scratch = None
+                continue
+            for h in hs:
+                meta = h["meta"]
+                r = parsed.get(h["name"])
+                rec = {"harness": h["name"], "class": meta.get("class", "bounded"), "bound": meta.get("bound"),
+                       "targets": meta.get("targets", "").split(","), "doc": h["doc"], "crate": crate}
+                if h["stubs"]:
+                    result["assumptions"].append("kani %s: stubs %s" % (h["name"], h["stubs"]))
+                if h["unwind"]:
+                    result["assumptions"].append("kani %s: unwind(%s) with unwinding assertions on" % (h["name"], h["unwind"]))
+                if r is None:
+                    rec["status"] = "undecided"
+                    result["undecided"].append("kani harness %s did not run" % h["name"])
+                    result["harnesses"].append(rec)
+                    continue
+                rec.update({"time_s": r.get("time_s"), "n_checks": r.get("n_checks"), "covers": r.get("covers"), "covers_sat": r.get("covers_sat")})
+                if r["verdict"] == "SUCCESSFUL":
+                    if r.get("covers") and r.get("covers_sat") != r.get("covers"):
+                        rec["status"] = "undecided"
+                        result["undecided"].append("kani %s: only %s of %s cover goals reachable (vacuity guard)" % (h["name"], r.get("covers_sat"), r.get("covers")))
+                    else:
+                        rec["status"] = "ok"
+                elif r["verdict"] == "FAILED":
+                    real = [c for c in r["failed_checks"] if "unwinding assertion" not in c and "unsupported" not in c.lower() and "not currently supported" not in c.lower()]
+                    if r["timeout"] or r["oom"] or not real:
+                        rec["status"] = "undecided"
+                        result["undecided"].append("kani %s: %s" % (h["name"], "timeout" if r["timeout"] else ("out of memory" if r["oom"] else "unwinding/unsupported-construct failure only: %s" % r["failed_checks"][:3])))
+                    else:
+                        rec["status"] = "failed"
+                        rec["failed_check"] = real[0][:200]
+                        rec["all_failed_checks"] = real[:10]
+                        rec["output_tail"] = r["body"][-3000:]
+                        rec["witness"] = playback(scratch, crate, h, tdir)
+                else:
+                    rec["status"] = "undecided"
+                    result["undecided"].append("kani %s: no verdict (%s)" % (h["name"], "timeout" if r["timeout"] else "tool failure"))
+                result["harnesses"].append(rec)
+            shutil.rmtree(scratch, ignore_errors=True)
+            scratch = None
+    finally:
+        if scratch:
+            shutil.rmtree(scratch, ignore_errors=True)
+        if tmp_target:
+            shutil.rmtree(tdir, ignore_errors=True)
+    result["trusted"] += ["Kani 0.68 / CBMC 6.11 (bit-precise; machine integers are machine integers)",
+                          "harness assumptions (kani::assume) listed in /verif/kani/*/*.rs"]
+    return result
+
+
+def playback(scratch, crate, h, tdir):
+    """Ask Kani for the concrete values of the failing trace and replay them natively on the real crate."""
+    w = {"input": None}
+    try:
+        cmd, out, rc, wall = run_cargo_kani(scratch, crate, [h["fq"]], tdir, int(h["meta"].get("timeout", "180")),
+                                            extra=["-Z", "concrete-playback", "--concrete-playback=print"], jobs=1)
+        m = re.search(r"```\s*\n(.*?)```", out, re.S)
+        if not m:
+            w["note"] = "kani printed no concrete playback test"
+            return w
+        test = m.group(1)
+        w["kani_concrete_playback_test"] = test
+        vals = []
+        for line in re.findall(r"vec!\[([0-9, ]*)\]", test):
+            vals.append([int(x) for x in line.replace(" ", "").split(",") if x])
+        w["input"] = {"kani_any_values_in_order_little_endian_bytes": vals, "decode": h["meta"].get("decode", "see harness source: each vec is one kani::any() value")}
+        # native replay: add the generated test to the harness module and run it with `cargo kani playback`
+        tname = re.search(r"fn (kani_concrete_playback_\w+)", test)
+        if tname:
+            with open(os.path.join(scratch, "__playback.rs"), "w") as f:
+                f.write(h and open(h["file"]).read() + "\n" + test + "\n")
+            # re-point the module path at the augmented copy
+            for root, _, files in os.walk(os.path.join(scratch, "crates")):
+                for fn in files:
+                    if fn.endswith(".rs"):
+                        p = os.path.join(root, fn)
+                        s = open(p).read()
+                        if ('#[path = "%s"]' % h["file"]) in s:
+                            s = s.replace('#[cfg(kani)] #[path = "%s"]' % h["file"], '#[cfg(kani)] #[path = "%s"]' % os.path.join(scratch, "__playback.rs"))
+                            open(p, "w").write(s)
+            env = dict(os.environ, CARGO_NET_OFFLINE="true", CARGO_TARGET_DIR=tdir, RUST_BACKTRACE="0")
+            pcmd = ["cargo", "kani", "playback", "-Z", "concrete-playback", "-p", crate, "--", tname.group(1), "--nocapture"]
+            try:
+                p = subprocess.run(pcmd, cwd=scratch, env=env, capture_output=True, text=True, timeout=900)
+                tail = (p.stdout + p.stderr)[-2500:]
+                w["native_replay_cmd"] = " ".join(pcmd)
+                w["native_replay_output_tail"] = tail
+                w["native_replay_failed_as_expected"] = ("test result: FAILED" in tail) or ("panicked" in tail)
+            except subprocess.TimeoutExpired:
+                w["native_replay_output_tail"] = "timeout"
+    except Exception as e:  # best effort
+        w["note"] = "playback error: %r" % e
+    return w
 
 
 def find_witness(cfg, repo, violation):
-    return None
+    """For a failed Verus obligation: run the property's Kani companion harnesses (bounded) to get a concrete input."""
+    files_rel, prop_tag = cfg["files"], cfg["tag"]
+    kr = run_units(files_rel, repo, "thorough", prop_tag)
+    for h in kr["harnesses"]:
+        if h["status"] == "failed" and h.get("witness") and h["witness"].get("input") is not None:
+            w = dict(h["witness"])
+            w["companion_harness"] = h["harness"]
+            w["companion_failed_check"] = h.get("failed_check")
+            return w
+    return {"input": None, "note": "companion harnesses found no failing input within their bounds: %s" % [(h["harness"], h["status"]) for h in kr["harnesses"]]}
